@@ -6,6 +6,21 @@ VERIF = os.path.dirname(os.path.dirname(os.path.abspath(__file__)))
 BASE = "cd /repo && /venv/bin/python -m pytest -ra -q -p no:cacheprovider --timeout=900 --continue-on-collection-errors"
 
 CLAIMED = {
+    "C08": dict(
+        text="Coq theorems over an executable model of the function expansion and naming of a scope "
+             "(GenFunctions.define_function_suffix / has_default_args / template_function / generic_function suffix logic, "
+             "util.un_camel, C_name / F_name_impl / F_name_generic templates): for defaulted suffixes, any number of overloads and "
+             "trailing default arguments, exactly one C entry point and one Fortran specific per callable signature, pairwise "
+             "distinct under a stated separability of the underscore names (unbounded, by induction over positions); generic name = "
+             "underscore form of the C++ name. The full statement is refuted by two witnesses (explicit function_suffix with default "
+             "arguments; an overload number colliding with another function's name) = known findings. Tie: extracted model vs the "
+             "function nodes of real runs (C_name, F_name_impl, F_name_generic, order) incl. explicit suffixes, templates and "
+             "fortran_generic in global / namespace / class scopes. Search: duplicates, counts and generic-interface membership in the "
+             "generated C headers, Fortran modules, PyMethodDef and luaL_Reg tables.",
+        note="Trusted: Coq kernel, extraction, OCaml driver, Python harness and its text observers (tools/names_obs.py). Not in the "
+             "model: bufferify/CFI helper functions, class templates, constructors' generic grouping, cross-scope collisions.",
+        technique="Coq proof over hand model + extracted-model correspondence; text-level oracle for the search",
+        design="4/C08"),
     "C09": dict(
         text="Coq theorems over executable models of declast.Parser.pointer/declarator (Model/Decl.v) and the unparser "
              "Ptr/Declarator/Declaration.gen_decl_work (Model/Render.v): every pointer/reference chain with const/volatile at "
